@@ -18,19 +18,32 @@ def contracted(out, name, pdf):
 def scan(chk, r, cases, ratios, max_pto):
     pdf = cards.ToyPDF()
     grid = cards.mixed_grid(12, 10)
+    expanded = []
     for case in cases:
-        process, kind, fl, proj = case
-        x = float(r.choice([0.05, 0.1, 0.3]))
+        opts = case[4] if len(case) > 4 else {}
+        if "x" in opts:
+            expanded.append(case)
+        else:  # two x values: an accidental cancellation at one x must not hide a wrong limit
+            for xv in (0.1, 0.3):
+                expanded.append(tuple(case[:4]) + (dict(opts, x=xv),))
+    for case in expanded:
+        process, kind, fl, proj = case[:4]
+        opts = case[4] if len(case) > 4 else {}
+        x = float(opts.get("x", r.choice([0.05, 0.1, 0.3])))
         if fl in ("light", "total"):
             th_kw = dict(NfFF=5, mt=MH)  # only the top is massive; it plays the heavy quark
+        elif opts.get("second"):
+            # the heavy quark is *not* the first massive one: bottom with three light flavours
+            th_kw = dict(NfFF=3, mc=1.0, mb=MH)
         else:
             hq = dict(charm="mc", bottom="mb", top="mt")[fl]
             th_kw = dict(NfFF={"charm": 3, "bottom": 4, "top": 5}[fl])
             th_kw[hq] = MH
+        ratios_here = opts.get("ratios", ratios)
         name = f"{kind}_{fl}"
         series = {}
         try:
-            for ratio in ratios:
+            for ratio in ratios_here:
                 Q2 = float(ratio * MH * MH)
                 d = {}
                 for fns in ("FFNS", "FFN0"):
@@ -52,8 +65,11 @@ def scan(chk, r, cases, ratios, max_pto):
             if s0 == 0.0 and s1 == 0.0:
                 continue
             e0, e1 = abs(d0) / max(s0, 1e-300), abs(d1) / max(s1, 1e-300)
-            floor = 3e-6
-            bound = max(e0 * (r0 / r1) ** 0.8, floor)
+            # floor: accuracy of the quadrature / interpolation of the contraction itself (measured
+            # on the pinned tree: up to 6e-5 at the lowest grid node); exponent 0.6 leaves room for
+            # the logarithms that multiply m2/Q2
+            floor = 2e-4
+            bound = max(e0 * (r0 / r1) ** 0.6, floor)
             ok = e1 <= bound
             d0 = e0
             sample = dict(obs=name, process=process, projectile=proj, order=list(k), x=x, series=[(a, b, c) for a, b, c in ser], rel_first=e0, rel_last=e1, bound=bound)
@@ -101,10 +117,12 @@ def run(tier):
     search_mirror(chk, r, 150 if thorough else 20)
     quick_cases = [("CC", "F2", "charm", "neutrino"), ("EM", "F2", "charm", "electron"), ("NC", "F3", "charm", "electron"), ("CC", "F3", "charm", "antineutrino")]
     more = [("CC", "FL", "charm", "neutrino"), ("EM", "FL", "charm", "electron"), ("NC", "F2", "bottom", "positron"), ("EM", "F2", "light", "electron"), ("EM", "F2", "total", "electron"), ("CC", "F2", "bottom", "electron"), ("NC", "g1", "charm", "electron"), ("CC", "F2", "total", "neutrino")]
+    special = [("EM", "F2", "bottom", "electron", dict(second=True)), ("EM", "F2", "charm", "electron", dict(x=1e-3, ratios=[1e3, 1e6]))]
     if thorough:
         scan(chk, r, quick_cases + more, [1e2, 1e3, 1e4, 1e5], 2)
+        scan(chk, r, special + [("CC", "F2", "bottom", "neutrino", dict(second=True)), ("EM", "FL", "charm", "electron", dict(x=1e-3, ratios=[1e3, 1e4, 1e5, 1e6])), ("EM", "F2", "charm", "electron", dict(x=1e-2, ratios=[1e3, 1e6]))], [1e2, 1e3, 1e4, 1e5, 1e6], 1)
     else:
-        scan(chk, r, quick_cases, [1e2, 1e4], 1)
+        scan(chk, r, quick_cases + special, [1e2, 1e4], 1)
     chk.level = "proof"
     chk.assumptions += [
         "PARTIAL: Lean proves that FFN0 and FFNS kernels carry identical parton weights (the limit reduces to the partonic coefficient functions); the decay of C_massive - C_asymptotic for LeProHQ/adani/closed-form coefficients is observed on real runs, not proved",
